@@ -115,10 +115,14 @@ func modelOf(rec Record) *mRec {
 
 // ---- generators ----
 
+// long values: lines of several kilobytes are ordinary (GOFLAGS, long paths, cpu feature lists); they stay below the 64 KiB a line may have
+var c01Long4k = "flags=" + strings.Repeat("-tags=x,", 600)
+var c01Long20k = strings.Repeat("0123456789abcdef", 1250)
+
 var c01Keys = []string{"a", "goos", "pkg", "k-1", "é", "ключ", "x/y", "a.b", "cpu", "b"}
 var c01Vals = []string{"1", "2", "linux", "darwin", "Intel(R) Core(TM) i7", "x  y", "v:1", "é世", "a\tb", "key: value", "Benchmark", "-", "0",
 	// trailing blanks and Unicode white space at either end belong to the value (only leading ASCII blanks/tabs separate it from the key)
-	"padded   ", "tab\t", "2.20GHz ", "\u00a0x", "x\u00a0", "x\u3000", "v\v", "\u2003both\u2003", "ctl\x1b[0m", "\x00"}
+	"padded   ", "tab\t", "2.20GHz ", "\u00a0x", "x\u00a0", "x\u3000", "v\v", "\u2003both\u2003", "ctl\x1b[0m", "\x00", c01Long4k, c01Long20k}
 var c01Units = []string{"ns/op", "MB/s", "B/op", "allocs/op", "ns/ns", "MB*ns/op", "foo-ns", "xns", "custom", "ns", "sec/op", "B/s", "ns/MB", "é/op", "u\x1f/op", "\x01ns"}
 var c01NamePieces = []string{"Benchmark", "\x1b", "\x00", "X", "Y", "Foo", "/", "=", "-", "8", "16", "k", "v", "é", "世", "\xff", "sub", "_", ":", "*"}
 var c01MetaUnits = []string{"ns/op", "B/op", "allocs/op", "MB/s", "foo-ns", "custom"}
@@ -679,6 +683,7 @@ func c01LanePipeline(t *testing.T, r *sim.Run) {
 				}
 			}
 			if err := rd.Err(); err != nil {
+				p1.CloseRead(err)  // the process exits: its end of the upstream pipe closes (the producer gets EPIPE)
 				p2.CloseWrite(err) // propagate the upstream failure
 				return
 			}
@@ -695,6 +700,9 @@ func c01LanePipeline(t *testing.T, r *sim.Run) {
 				}
 			}
 			consumerErr = rd.Err()
+			if consumerErr != nil {
+				p2.CloseRead(consumerErr) // a consumer that gives up closes its end of the pipe
+			}
 		})
 		s.Loop()
 		r.Probes["pipe stalls (full or empty)"] += p1.Stalls + p2.Stalls
